@@ -227,6 +227,15 @@ def run_case(case, ctx):
                 'float32': np.array(case['x'], dtype=np.float32).astype(float)}[narrow]
         case = dict(case, x=[float(v) for v in vals])
         ctx.count('x_in_a_narrow_dtype:' + narrow)
+    if narrow is None and case['fseed'] % 9 == 2 and not _is_flat(case):
+        # coordinates that are exactly zero (0.0 or -0.0): a point like any other
+        xz = list(case['x'])
+        zrng = np.random.default_rng(case['fseed'] + 3)
+        for k_ in range(len(xz)):
+            if k_ == 0 or zrng.random() < 0.4:
+                xz[k_] = 0.0 if zrng.random() < 0.7 else -0.0
+        case = dict(case, x=xz)
+        ctx.count('coordinates_exactly_zero')
     rec = Recorder(make_fun(case))
     if _is_flat(case):
         ctx.count('functions_even_about_x_or_constant')
